@@ -973,8 +973,13 @@ impl Layer3 {
                     let mut srcs: Vec<Word> = P4.iter().map(|x| w(*x)).collect();
                     srcs.push(w(35));
                     srcs.push(far.clone());
+                    // words whose low 64 bits are a small in-range offset (limb-truncation class)
+                    srcs.push(two_pow(64));
+                    srcs.push(two_pow(64) + w(3));
+                    srcs.push(two_pow(128) + w(1));
+                    srcs.push(two_pow(255) + w(7));
                     for src in srcs {
-                        if copcode == op::MCOPY && src == far {
+                        if copcode == op::MCOPY && src > w(u32::MAX as u64) {
                             continue;
                         }
                         let mut a = Asm::new();
